@@ -21,8 +21,9 @@ def _run_one(args):
         base = Program()
         src = base.modules[module].source
         pairs = old if isinstance(old, list) else [(old, new)]
+        every = len(m) > 5 and m[5] == 'all'       # sibling implementations (both run loops, both roles) are changed alike
         for o, n in pairs:
-            if src.count(o) != 1:
+            if src.count(o) != 1 and not (every and src.count(o) > 1):
                 return (name, 'skipped', 'anchor text occurs %d times' % src.count(o))
             src = src.replace(o, n)
         prog = Program(overrides={module: src})
